@@ -56,6 +56,10 @@ type receivedPacket struct {
 	ecn protocol.ECN
 
 	info packetInfo // only valid if the contained IP address is valid
+
+	// bytesCounted is set for packets that were buffered because the keys to decrypt them were not yet available.
+	// The datagram they arrived in has already been counted towards the amplification limit.
+	bytesCounted bool
 }
 
 type receivedPacketWithDatagramID struct {
@@ -73,6 +77,8 @@ func (p *receivedPacket) Clone() *receivedPacket {
 		buffer:     p.buffer,
 		ecn:        p.ecn,
 		info:       p.info,
+
+		bytesCounted: p.bytesCounted,
 	}
 }
 
@@ -1070,7 +1076,12 @@ func (c *Conn) handlePackets() (wasProcessed bool, _ error) {
 }
 
 func (c *Conn) handleOnePacket(rp receivedPacket, datagramID qlog.DatagramID) (wasProcessed bool, _ error) {
-	c.sentPacketHandler.ReceivedBytes(rp.Size(), rp.rcvTime)
+	// Packets that were buffered as undecryptable are passed to this function a second time once new keys are available.
+	// Their bytes were counted when the datagram arrived: counting them again would raise the amplification limit
+	// (section 8.1 of RFC 9000) above three times the number of bytes received.
+	if !rp.bytesCounted {
+		c.sentPacketHandler.ReceivedBytes(rp.Size(), rp.rcvTime)
+	}
 
 	if wire.IsVersionNegotiationPacket(rp.data) {
 		return false, c.handleVersionNegotiationPacket(rp)
@@ -3043,6 +3054,7 @@ func (c *Conn) tryQueueingUndecryptablePacket(p receivedPacket, pt qlog.PacketTy
 			DatagramID: datagramID,
 		})
 	}
+	p.bytesCounted = true
 	c.undecryptablePackets = append(c.undecryptablePackets, receivedPacketWithDatagramID{receivedPacket: p, datagramID: datagramID})
 }
 
